@@ -62,7 +62,8 @@ def enc(v):
     if isinstance(v, datetime.datetime):
         return ['pdt', v.isoformat()]
     if isinstance(v, datetime.date):
-        return ['pd', v.isoformat()]
+        # what a datetime64[D] element becomes in an object array; equal to the datetime64 it came from
+        return ['d', 'D', v.toordinal() - 719163]
     if isinstance(v, tuple):
         return ['t', [enc(x) for x in v]]
     if isinstance(v, np.ndarray):
